@@ -3,6 +3,7 @@ package lab
 import (
 	"encoding/json"
 	"fmt"
+	"github.com/google/uuid"
 	"os"
 	"os/exec"
 	"path/filepath"
@@ -43,7 +44,7 @@ func ChildMain() {
 		os.Exit(0)
 	}
 	k := getenvInt("VERIF_CHILD_KILL")
-	reg := NewRegistry()
+	reg := NewRegistry(&sc)
 	v, err := sqlite.New(context.Background(), os.Getenv("VERIF_CHILD_DIR"), reg)
 	if err != nil {
 		os.Exit(4)
@@ -120,7 +121,7 @@ func RealKill(sc *Scenario, k int, ref []*workflow.Plan, which string, res *vpro
 		return false // the child failed for another reason: not a verdict
 	}
 	ctx := context.Background()
-	reg := NewRegistry()
+	reg := NewRegistry(sc)
 	v, err := sqlite.New(ctx, dbDir, reg)
 	if err != nil {
 		res.Fail(which+"/real-kill:store-unusable", "after SIGKILL at write %d the sqlite store could not be reopened: %v", k, err)
@@ -130,14 +131,25 @@ func RealKill(sc *Scenario, k int, ref []*workflow.Plan, which string, res *vpro
 	if err != nil {
 		return false
 	}
-	var plans []*workflow.Plan
+	// the stream is drained before anything else is asked of the vault: a sqlite result stream holds the vault's only
+	// connection until its last row has been taken
+	var listed []uuid.UUID
+	listFailed := false
 	for r := range stream {
 		if r.Err != nil {
-			return false
+			listFailed = true
+			continue
 		}
-		p, err := v.Read(ctx, r.Result.ID)
+		listed = append(listed, r.Result.ID)
+	}
+	if listFailed {
+		return false
+	}
+	var plans []*workflow.Plan
+	for _, id := range listed {
+		p, err := v.Read(ctx, id)
 		if err != nil {
-			res.Fail(which+"/real-kill:plan-unreadable", "after SIGKILL at write %d plan %s is listed but cannot be read: %v", k, r.Result.ID, err)
+			res.Fail(which+"/real-kill:plan-unreadable", "after SIGKILL at write %d plan %s is listed but cannot be read: %v", k, id, err)
 			return true
 		}
 		plans = append(plans, p)
